@@ -803,7 +803,7 @@ func checkConc(w *world, c concCase, cfg Cfg, o *hx.Oracle, budget int, origin s
 		}
 		asis := ans[0]
 		if asis == "unknown" {
-			asis = try(cfg.AtomicClose, cfg.AtomicRt, budget*10)
+			asis = try(cfg.AtomicClose, cfg.AtomicRt, budget*3)
 		}
 		sig := "C10:non-linearizable-history"
 		switch {
@@ -945,10 +945,10 @@ func replay(path string, cfg Cfg) {
 		var cc concCase
 		if json.Unmarshal(in, &cc) == nil && len(cc.History) > 0 {
 			// re-validate the recorded history, then re-run its programs a few times
-			checkConc(nil, cc, cfg, orc, 2000000, "replay(recorded)")
+			checkConc(nil, cc, cfg, orc, 600000, "replay(recorded)")
 			for k := 0; k < 20; k++ {
 				w, c := runConc(cc.Engine, cc.Seed, cc.Threads, opsPerThread(cc), cc.Yield && hooksAvailable)
-				checkConc(w, c, cfg, orc, 2000000, "replay(re-run)")
+				checkConc(w, c, cfg, orc, 600000, "replay(re-run)")
 			}
 		} else if json.Unmarshal(in, &sc) == nil && len(sc.Ops) > 0 {
 			runSeq(sc.Engine, sc.Ops, cfg, orc)
@@ -1059,14 +1059,14 @@ func main() {
 	}
 	jobs := make(chan job, 64)
 	var wg sync.WaitGroup
-	for k := 0; k < 8; k++ {
+	for k := 0; k < 6; k++ {
 		wg.Add(1)
 		go func() {
 			defer wg.Done()
 			o := hx.StartOracle()
 			defer o.Close()
 			for j := range jobs {
-				checkConc(j.w, j.c, cfg, o, 300000, "random")
+				checkConc(j.w, j.c, cfg, o, 150000, "random")
 			}
 			orcMu.Lock()
 			extraOracleOps += o.N
